@@ -72,6 +72,36 @@ fn for_instances(cx: &Cx, rep: &mut Report, run: &RoleRun, n: usize, mut f: impl
     let _ = cx;
     count
 }
+/// like `for_instances`, but zero-element shapes accepted by `want` (given the collections that are empty on the path)
+/// are analysed as well, printed with those collections empty; and every path that does not depend on the size of the
+/// collections in `also_empty` is additionally printed with them empty (a summarised loop covers zero iterations too).
+/// The callback receives the collections printed empty.
+fn for_instances_shapes(cx: &Cx, rep: &mut Report, run: &RoleRun, n: usize, want: &dyn Fn(&[String]) -> bool, also_empty: &[&str], mut f: impl FnMut(&mut Report, &Instance, &PathRes, &[String])) -> usize {
+    let mut cache = InstCache::default();
+    let mut seen = std::collections::HashSet::new();
+    let mut count = 0;
+    rep.unanalysable(&run.label(), &run.unsupported);
+    for p in &run.paths {
+        let em = empties(&p.cond);
+        if shape_path(&p.cond) && !want(&em) { continue; }
+        let Outcome::Ok(v) = &p.outcome else { continue };
+        let mut shapes: Vec<Vec<String>> = vec![em.clone()];
+        let free: Vec<String> = also_empty.iter().filter(|c| !p.cond.keys().any(|a| (a.starts_with("all-empty(") || a.starts_with("?len(")) && a.contains(**c))).map(|c| c.to_string()).collect();
+        if !free.is_empty() { let mut e2 = em.clone(); e2.extend(free); shapes.push(e2); }
+        for em in shapes {
+            let inst = cache.get_sized(v, n, &em, &sizes(&p.cond));
+            match &*inst {
+                Err(e) => rep.fail("TP-parse", &run.label(), "parse", e, &run.site(), json!({"path": cond_str(&p.cond), "empty": em})),
+                Ok(i) => {
+                    if !i.notes.is_empty() { rep.fail("unanalysable", &run.label(), &format!("hole:{}", i.notes[0].chars().take(40).collect::<String>()), &format!("a template hole could not be printed schematically: {}", i.notes.join("; ")), &run.site(), json!({})); }
+                    if seen.insert(i.text.clone()) { count += 1; f(rep, i, p, &em); }
+                }
+            }
+        }
+    }
+    let _ = cx;
+    count
+}
 fn role<'a>(cx: &'a Cx, kind: &str, variant: &str) -> Option<&'a Role> { cx.roles.iter().find(|r| r.item_kind == kind && r.variant == variant) }
 
 // =============================================================================================== C07
@@ -140,12 +170,16 @@ pub fn c07(cx: &Cx) -> i32 {
     if let Some(r) = role(cx, "enum", "Clone") {
         let run = run(&cx.ix, r, None, CollMode::Summary, &[]);
         let (label, site) = (run.label(), run.site());
-        let n = for_instances(cx, &mut rep, &run, 2, |rep, inst, p| {
+        // both field-count shapes: two fields per variant, and fieldless variants (`V`, `V()`, `V {}`)
+        let mut zero_field_instances = 0;
+        let n = for_instances_shapes(cx, &mut rep, &run, 2, &|em| !em.iter().any(|e| e == "variants"), &["variants[*].fields"], |rep, inst, p, printed_empty| {
             let cs = cond_str(&p.cond);
             let ims = find_impls(&inst.file);
             let Some(im) = ims.iter().find(|im| ends(&trait_path(im), "clone::Clone")) else { rep.fail("TP-clone-enum", &label, "no-impl", "no Clone impl generated", &site, json!({})); return };
             let mut sem = Sem::new();
             let nv = sizes(&p.cond).get("variants").copied().unwrap_or(2);
+            let nf: usize = if printed_empty.iter().any(|e| e.ends_with(".fields")) { 0 } else { 2 };
+            if nf == 0 { zero_field_instances += 1; }
             if let Some(m) = method(im, "clone") {
                 let body = sem.method(m);
                 let mut ok = false;
@@ -157,7 +191,7 @@ pub fn c07(cx: &Cx) -> i32 {
                         let pv = match pt { Pt::Struct(n, ..) | Pt::TupleStruct(n, ..) | Pt::Path(n) => variant_of_path(inst, n), _ => None };
                         if pv != Some(v) { ok = false; why = format!("arm {v} matches variant {pv:?}"); }
                         match ctor_parts(b) {
-                            Some((path, fields)) if variant_of_path(inst, &path) == Some(v) && fields.len() == 2 => {
+                            Some((path, fields)) if variant_of_path(inst, &path) == Some(v) && fields.len() == nf => {
                                 for (pos, (name, val)) in fields.iter().enumerate() {
                                     let k = pos + 1;
                                     let fok = match clone_call(val, "clone") {
@@ -185,7 +219,7 @@ pub fn c07(cx: &Cx) -> i32 {
                         let same = match pt { Pt::Tuple(ps) if ps.len() == 2 => ps.iter().all(|q| match q { Pt::Struct(n, ..) | Pt::TupleStruct(n, ..) | Pt::Path(n) => variant_of_path(inst, n) == Some(v), _ => false }), _ => false };
                         if !same { ok = false; why = format!("arm {v} does not pair variant {v} with itself"); }
                         let stmts: Vec<Tm> = match b { Tm::Seq(s, val) => { let mut x = s.clone(); if **val != Tm::Unit { x.push((**val).clone()); } x } Tm::Unit => vec![], o => vec![o.clone()] };
-                        if stmts.len() != 2 { ok = false; why = format!("arm {v} has {} statements for 2 fields", stmts.len()); }
+                        if stmts.len() != nf { ok = false; why = format!("arm {v} has {} statements for {nf} fields", stmts.len()); }
                         for (pos, s) in stmts.iter().enumerate() {
                             let k = pos + 1;
                             let sok = match clone_call(s, "clone_from") {
@@ -209,6 +243,7 @@ pub fn c07(cx: &Cx) -> i32 {
             } else { rep.fail("TP-clone-enum", &label, "no-clone-from", "the impl has no `clone_from`", &site, json!({})); }
         });
         rep.floor("distinct Clone enum instances", n, 2);
+        rep.floor("Clone enum instances with fieldless variants", zero_field_instances, 1);
     } else { rep.fail("roles", "enum", "Clone", "no enum Clone role", "-", json!({})); }
     crate::misc::same_source_rule(cx, &mut rep);
     rep.assumptions = vec!["field types' Clone impls are whatever they are: the analysis fixes that each field is cloned by exactly one call expression of its own type's Clone on its own place, per path".into(), "run-time call counts beyond one call expression per field per path are not decided".into()];
